@@ -7,9 +7,10 @@ from props.clientcommon import NPM, MAVEN, PYPI, CONCRETE, REQUIREMENT
 PROOF_FILE = "C14"
 LEVEL = "proof"
 RULE = ("histories of AddVersion calls (new keys, repeated keys with changed attributes or requirements, deleted-flagged "
-        "versions; npm, Maven, PyPI) interleaved with Version/Versions/Requirements/MatchingVersions calls and closed by a "
-        "full observation of every key and package mentioned; a history is non-trivial when some key is added at least "
-        "twice with different attributes or requirements and is looked up afterwards")
+        "versions, a caller reusing one requirement buffer for two versions; npm, Maven, PyPI; 1 history in 20 with a package of "
+        "more than 12 versions and requirement lists of 13-16) interleaved with Version/Versions/Requirements/MatchingVersions "
+        "calls and closed by a full observation of every key and package mentioned; a history is non-trivial when some key is "
+        "added at least twice with different attributes or requirements and is looked up afterwards")
 TRUSTED = [
     "Coq 8.16.1 kernel; vm_compute for the refuted witnesses",
     "translator harness/go/cmd/gotables (system numbers, version types, Deleted/Tags/Dev/KnownAs keys regenerated each run)",
@@ -24,6 +25,13 @@ ASSUMPTIONS = [
     "sort.Slice is modelled by the insertion sort it runs on at most 12 elements; on longer slices the result is the same "
     "whenever the comparator separates the elements (theorem isort_is_the_sorted_perm); longer slices with ties are skipped and counted",
     "slices returned by the client are observed at the time of the call; later aliasing effects on a returned slice are C05's subject",
+    "the oracle demands what C14 states: each live key once with its current attributes, ascending by the version comparison of the "
+    "system (npm: the version tagged latest last unless a prerelease while releases exist); the order among versions that compare "
+    "equal, the place of unparsable strings and which of several versions a non-range npm requirement selects are C12's clauses and "
+    "are also taken out of the model/implementation comparison here; requirement order is judged by the version's own system, "
+    "lists mixing npm and other systems only as multisets",
+    "histories on whose table Go's comparator is not lawful (the hypothesis laws_ok of the theorems) are counted and sent to the "
+    "reference model only",
 ]
 
 MANIFEST = dict(
@@ -80,7 +88,26 @@ def gen_deps(rng, sysn, maxn):
     return ds
 
 
-def gen_history(rng, nops, vpool_size):
+def gen_long_deps(rng, sysn):
+    """13-16 requirements: beyond the slice length up to which Go sorts by insertion.  Mostly with
+    pairwise different shown names (the order is then determined), sometimes with ties by shown
+    name (alias/Alias, the same name twice)."""
+    n = rng.randrange(13, 17)
+    ties = rng.random() < 0.3
+    names = [b"d%02d" % i for i in range(20)] + [b"D03", b"Zz", b"@s/q"]
+    rng.shuffle(names)
+    ds = []
+    for i in range(n):
+        ty = rng.choice([[], [], [[cc.D_DEV, b""]], [[cc.D_OPT, b""]], [[cc.D_SCOPE, b"test"]], [[cc.D_DEV, b""], [cc.D_OPT, b""]]])
+        name = names[i]
+        if ties and rng.random() < 0.3:
+            name = rng.choice([names[0], b"alias"])
+            ty = rng.choice([[], [[cc.D_KNOWNAS, b"alias"]], [[cc.D_KNOWNAS, b"Alias"]], [[cc.D_OPT, b""]]])
+        ds.append([sysn, name, REQUIREMENT, rng.choice(cc.REQUIREMENTS[sysn]), ty])
+    return ds
+
+
+def gen_history(rng, nops, vpool_size, alias=0, long=False):
     """ops in the case format of implrun/client.go"""
     # per-case pools keep the oracle table small
     vpool = {}
@@ -89,22 +116,43 @@ def gen_history(rng, nops, vpool_size):
         if s == PYPI and rng.random() < 0.15:
             base += cc.PYPI_UNPARSABLE
         rng.shuffle(base)
+        while len(base) < vpool_size:
+            v = cc.rand_version(rng, s)
+            if v not in base:
+                base.append(v)
         vpool[s] = base[:vpool_size]
-    systems = rng.choice([[NPM], [NPM], [MAVEN], [PYPI], cc.SYSTEMS, cc.SYSTEMS, [NPM, PYPI]])
-    names = {s: rng.sample(NAMES[s], rng.randrange(1, min(3, len(NAMES[s])) + 1)) for s in systems}
+    if long:
+        # one package that grows beyond 12 versions, and requirement lists beyond 12
+        systems = [rng.choice(cc.SYSTEMS)]
+        names = {systems[0]: [NAMES[systems[0]][0]]}
+    else:
+        systems = rng.choice([[NPM], [NPM], [MAVEN], [PYPI], cc.SYSTEMS, cc.SYSTEMS, [NPM, PYPI]])
+        names = {s: rng.sample(NAMES[s], rng.randrange(1, min(3, len(NAMES[s])) + 1)) for s in systems}
     added = []
     ops = []
     for _ in range(nops):
         r = rng.random()
-        if r < 0.55 or not added:
-            if added and rng.random() < 0.45:
+        if r < (0.7 if long else 0.55) or not added:
+            if added and rng.random() < (0.2 if long else 0.45):
                 s, name, vt, v = rng.choice(added)
             else:
                 s = rng.choice(systems)
                 name = rng.choice(names[s])
                 vt = CONCRETE if rng.random() < 0.97 else REQUIREMENT
                 v = rng.choice(vpool[s])
-            ops.append([0, s, name, vt, v, gen_attrs(rng, s), gen_deps(rng, s, 5)])
+            if rng.random() < 0.04:
+                # a caller that reuses one buffer for the requirements of two versions
+                v2 = rng.choice(vpool[s])
+                if v2 != v:
+                    buf = gen_deps(rng, s, 6) or gen_deps(rng, s, 6)
+                    while len(buf) < 2:
+                        buf += gen_deps(rng, s, 3)
+                    ops.append([5, alias, s, name, vt, v, gen_attrs(rng, s), rng.randrange(0, len(buf) + 1),
+                                v2, gen_attrs(rng, s), rng.randrange(0, len(buf) + 1), buf])
+                    added += [(s, name, vt, v), (s, name, vt, v2)]
+                    continue
+            deps = gen_long_deps(rng, s) if (long and rng.random() < 0.15) else gen_deps(rng, s, 5)
+            ops.append([0, s, name, vt, v, gen_attrs(rng, s), deps])
             added.append((s, name, vt, v))
         else:
             if rng.random() < 0.8:
@@ -126,10 +174,10 @@ def gen_history(rng, nops, vpool_size):
     # closing observation of everything mentioned, plus things never added
     keys, pkgs = [], []
     for o in ops:
-        if o[0] == 0:
-            keys.append(tuple(o[1:5]))
-            pkgs.append((o[1], o[2]))
-            for d in o[6]:
+        for (s, name, vt, v, attrs, deps) in adds_of(o):
+            keys.append((s, name, vt, v))
+            pkgs.append((s, name))
+            for d in deps:
                 pkgs.append((d[0], d[1]))
     keys = sorted(set(keys))
     pkgs = sorted(set(pkgs))
@@ -147,6 +195,40 @@ def gen_history(rng, nops, vpool_size):
     return ops
 
 
+def adds_of(o):
+    """the AddVersion calls an op makes, as (sys, name, vtype, version, attrs, requirements given);
+    for the buffer-reusing op the second call is given what the buffer holds after the first"""
+    if o[0] == 0:
+        return [tuple(o[1:7])]
+    if o[0] == 5:
+        _, _, s, name, vt, v1, a1, n, v2, a2, m, buf = o
+        b1 = caller_buffer_after(a1, n, buf)
+        return [(s, name, vt, v1, a1, buf[:n]), (s, name, vt, v2, a2, b1[:m])]
+    return []
+
+
+def is_deleted(attrs):
+    return cc.dump_get(cc.attrs_dump(attrs), cc.V_DELETED) is not None
+
+
+def dump_deps(deps):
+    return [[d[0], d[1], d[2], d[3], cc.attrs_dump(d[4])] for d in deps]
+
+
+INPLACE = [True]     # does AddVersion sort the caller's slice in place?  (set from the witness replay)
+
+
+def caller_buffer_after(attrs, n, buf):
+    """AddVersion sorts the slice it is given in place (unless the version is flagged deleted)"""
+    head = list(buf[:n])
+    if not INPLACE[0] or is_deleted(attrs) or not head or head[0][0] != NPM:
+        return list(buf)
+    import functools
+    less = lambda a, b: cc.dep_less(dump_deps([a])[0], dump_deps([b])[0])
+    head.sort(key=functools.cmp_to_key(lambda a, b: -1 if less(a, b) else (1 if less(b, a) else 0)))
+    return head + list(buf[n:])
+
+
 def needs_of(ops):
     need = {}
     for o in ops:
@@ -156,47 +238,100 @@ def needs_of(ops):
             need.setdefault(o[1], (set(), set()))[1].add(o[4])
         elif o[0] == 2:
             need.setdefault(o[1], (set(), set()))
+        elif o[0] == 5:
+            need.setdefault(o[2], (set(), set()))[0].update([o[5], o[8]])
     return need
 
 
-def check_sorted_deps(given, got):
-    """got must be the given requirements; in npm resolution order when the first given one is npm"""
-    if not given:
-        return got == []
-    if given[0][0] != NPM:
+def deps_rule(vsys, given):
+    """What the property says about the order of the requirements of a version of system vsys:
+    npm: the requirements of an npm version come back in npm resolution order;
+    asgiven: no npm involved, they come back as given;
+    any: a list mixing npm and other systems, about whose order the property is silent."""
+    npm = [d[0] == NPM for d in given]
+    if vsys == NPM and all(npm):
+        return "npm"
+    if vsys != NPM and not any(npm):
+        return "asgiven"
+    return "any"
+
+
+def check_sorted_deps(vsys, given, got):
+    """got must be the given requirements, each once; ordered as deps_rule says (requirements
+    that the npm order does not separate may come in any order)"""
+    rule = deps_rule(vsys, given)
+    if rule == "asgiven":
         return got == given
     if sorted(map(repr, got)) != sorted(map(repr, given)):
         return False
-    for i in range(len(got)):
-        for j in range(i + 1, len(got)):
-            if cc.dep_less(got[j], got[i]):
-                return False
+    if rule == "npm":
+        for i in range(len(got)):
+            for j in range(i + 1, len(got)):
+                if cc.dep_less(got[j], got[i]):
+                    return False
     return True
 
 
-def reference(ops, tab, obs, stale_attrs=False):
+def ascending_eco(tab, s, recs, whole=True):
+    """Ascending by the version comparison of the system, versions that compare equal in any
+    order (the order among them is C12's clause; unparsable strings are not judged here).
+    npm: the version tagged latest stands last instead, unless it is a prerelease while releases
+    exist.  whole=False: recs is a selection of the package's versions (a match), for which
+    both shapes are accepted."""
+    if s != NPM:
+        return cc.ascending(tab, s, recs)
+
+    def asc(l):
+        for i in range(len(l)):
+            for j in range(i + 1, len(l)):
+                a, b = l[i][0], l[j][0]
+                if tab.parses(NPM, a) and tab.parses(NPM, b) and tab.cmp(NPM, b, a) < 0:
+                    return False
+        return True
+    tagged = lambda r: b"latest" in cc.tags_of(r).split(b",")
+    pre = lambda r: tab.parses(NPM, r[0]) and tab.prerelease(NPM, r[0])
+    moved_ok = bool(recs) and tagged(recs[-1]) and asc(recs[:-1])
+    if not whole:
+        return asc(recs) or moved_ok
+    some_release = any(not pre(r) for r in recs)
+    stays = [r for r in recs if tagged(r) and pre(r) and some_release]     # tagged, but not to be moved
+    moves = [r for r in recs if tagged(r) and not (pre(r) and some_release)]
+    if not moves:
+        return asc(recs)
+    return (moved_ok and recs[-1] in moves) or (bool(stays) and asc(recs))
+
+
+def reference(ops, tab, obs, stale_attrs=False, alias=False):
     """The map-based reference of the property, evaluated against the observations obs.
-    Returns None or (index of op, what, required).  stale_attrs=True is the pinned behaviour
-    of F-C14-1 (the attributes of a key are those of its first effective addition)."""
-    store = {}       # key -> [rec, deps]
+    Returns None or (index of op, what, required).  Pinned behaviours of known findings:
+    stale_attrs (F-C14-1): the attributes of a key are those of its first effective addition;
+    alias (F-C14-2): the client keeps the caller's requirement slice itself."""
+    store = {}       # key -> [rec, requirements, exact order demanded?]
     known = set()
     oi = 0
     for n, o in enumerate(ops):
         t = o[0]
-        if t == 0:
-            _, s, name, vt, v, attrs, deps = o
-            dump = cc.attrs_dump(attrs)
-            if cc.dump_get(dump, cc.V_DELETED) is not None:
-                continue
-            k = (s, name, vt, v)
-            deps_d = [[d[0], d[1], d[2], d[3], cc.attrs_dump(d[4])] for d in deps]
-            if stale_attrs and k in store:
-                store[k] = [store[k][0], deps_d]
-            else:
-                store[k] = [[v, vt, dump], deps_d]
-            known.add((s, name))
-            for d in deps:
-                known.add((d[0], d[1]))
+        if t in (0, 5):
+            for (s, name, vt, v, attrs, deps) in adds_of(o):
+                dump = cc.attrs_dump(attrs)
+                if cc.dump_get(dump, cc.V_DELETED) is not None:
+                    continue
+                k = (s, name, vt, v)
+                deps_d = dump_deps(deps)
+                if stale_attrs and k in store:
+                    store[k] = [store[k][0], deps_d, False]
+                else:
+                    store[k] = [[v, vt, dump, s, name], deps_d, False]
+                known.add((s, name))
+                for d in deps:
+                    known.add((d[0], d[1]))
+            if t == 5:
+                oi += 1       # the caller's buffer after the calls: the property does not speak about it
+                if alias:
+                    _, _, s, name, vt, v1, a1, n1, v2, a2, m, buf = o
+                    if not is_deleted(a1) and v1 != v2:
+                        b2 = caller_buffer_after(a2, m, caller_buffer_after(a1, n1, buf))
+                        store[(s, name, vt, v1)][1:] = [dump_deps(b2[:n1]), True]
             continue
         got = obs[oi]
         oi += 1
@@ -210,13 +345,12 @@ def reference(ops, tab, obs, stale_attrs=False):
             if k not in store:
                 if got != [b"notfound"]:
                     return n, "Requirements of a key never added is not reported as not found", [b"notfound"]
-            elif got[0] != b"ok" or not check_sorted_deps(store[k][1], got[1]):
-                want = store[k][1]
-                if want and want[0][0] == NPM:
-                    import functools
-                    want = sorted(want, key=functools.cmp_to_key(
-                        lambda a, b: -1 if cc.dep_less(a, b) else (1 if cc.dep_less(b, a) else 0)))
-                return n, "Requirements are not those of the most recent addition in resolution order", [b"ok", want]
+            else:
+                given, exact = store[k][1], store[k][2]
+                ok = got[0] == b"ok" and (got[1] == given if exact else check_sorted_deps(k[0], given, got[1]))
+                if not ok:
+                    want = cc.sort_deps_like_go(given) if deps_rule(k[0], given) == "npm" else given
+                    return n, "Requirements are not those given in the most recent addition (in npm resolution order)", [b"ok", want]
         elif t in (2, 4):
             s, name = o[1], o[2]
             if (s, name) not in known:
@@ -232,60 +366,127 @@ def reference(ops, tab, obs, stale_attrs=False):
             if t == 2:
                 if sorted(map(repr, got[1])) != sorted(map(repr, recs)):
                     return n, "Versions does not list each added (non-deleted) version exactly once", [b"ok", recs]
-                if not in_quant:
-                    continue
-                if s == NPM:
-                    want = cc.npm_order(tab, recs)
-                    if got[1] != want:
-                        return n, "Versions is not in ascending npm order", [b"ok", want]
-                elif not cc.ascending(tab, s, got[1]):
+                if in_quant and not ascending_eco(tab, s, got[1]):
                     return n, "Versions is not in ascending order", [b"ok", recs]
-            else:
+            elif in_quant:
                 req = o[4]
-                if not in_quant:
-                    continue
-                if s == NPM:
-                    want = cc.expected_matches(tab, s, req, cc.npm_order(tab, recs))
-                    if got[1] != want:
-                        return n, "MatchingVersions differs from the matching versions in npm order", [b"ok", want]
-                else:
-                    want = [r for r in recs if cc.satisfies(tab, s, req, r)]
-                    if sorted(map(repr, got[1])) != sorted(map(repr, want)) or not cc.ascending(tab, s, got[1]):
-                        return n, "MatchingVersions differs from the matching versions in ascending order", [b"ok", want]
+                want = [r for r in recs if cc.satisfies(tab, s, req, r)]
+                if s == NPM and not tab.constraint_ok(NPM, req):
+                    # not a range: the version whose string or tag equals it (which one, if several, is C12's clause)
+                    if not (len(got[1]) == min(1, len(want)) and all(r in want for r in got[1])):
+                        return n, "MatchingVersions (npm, not a range) does not return a live version whose string or tag equals the requirement", [b"ok", want[:1]]
+                elif sorted(map(repr, got[1])) != sorted(map(repr, want)) or not ascending_eco(tab, s, got[1], whole=False):
+                    return n, "MatchingVersions differs from the live versions that satisfy the requirement, ascending", [b"ok", want]
     return None
 
 
+def canonical(ops, obs, tab):
+    """The observations with what C14 does not state taken out, for the comparison of model and
+    implementation: the order inside Versions/MatchingVersions answers (C12 owns the exact
+    order; the reference above judges that the implementation's is ascending), which of several
+    versions an npm requirement that is not a range selects (C12: the first in npm order; the
+    reference judges that it is one of them), and the order of requirement lists about which
+    the property is silent."""
+    if not isinstance(obs, list):
+        return obs
+    given = {}
+    out = []
+    oi = 0
+    for o in ops:
+        t = o[0]
+        if t in (0, 5):
+            for (s, name, vt, v, attrs, deps) in adds_of(o):
+                if not is_deleted(attrs):
+                    given[(s, name, vt, v)] = dump_deps(deps)
+            if t == 0:
+                continue
+        if oi >= len(obs):
+            break
+        x = obs[oi]
+        oi += 1
+        if isinstance(x, list) and len(x) == 2 and x[0] == b"ok" and isinstance(x[1], list):
+            k = tuple(o[1:5]) if t == 3 else None
+            if t == 4 and o[1] == NPM and not tab.constraint_ok(NPM, o[4]):
+                x = [x[0], len(x[1])]
+            elif t in (2, 4) or (t == 3 and k in given and deps_rule(k[0], given[k]) == "any"):
+                x = [x[0], sorted(x[1], key=repr)]
+        out.append(x)
+    return out + obs[oi:]
+
+
 PROBE_STALE, PROBE_RESORT = cc.PROBE_STALE, cc.PROBE_RESORT
+
+
+def history_lawful(h, t):
+    """the hypothesis of the theorems on the semver layer (laws_ok), on this history's table"""
+    for s, (vs, _) in needs_of(h).items():
+        if not cc.table_lawful(t, s, vs):
+            return False
+    return True
 
 
 def run(ctx):
     rng = ctx.rng
     variant = cc.detect_variant(ctx)
     addv = variant[0]
+    alias = ctx.extra["alias"]
+    INPLACE[0] = bool(alias & 2)
 
     n_hist = ctx.scale(2000, 40000)
     hists = []
     for i in range(n_hist):
-        if ctx.thorough() and i % 20 == 0:
-            nops = rng.randrange(60, 401)
-            pool = 14
+        if i % 20 == 0:
+            # a package beyond Go's insertion-sort cut-off of 12, requirement lists of 13-16
+            nops = rng.randrange(60, 401) if ctx.thorough() else rng.randrange(30, 70)
+            hists.append(gen_history(rng, nops, rng.randrange(14, 41), alias, long=True))
         else:
-            nops = rng.randrange(1, 61)
-            pool = rng.choice([4, 6, 8, 10])
-        hists.append(gen_history(rng, nops, pool))
+            hists.append(gen_history(rng, rng.randrange(1, 61), rng.choice([4, 6, 8, 10]), alias))
     # the recorded witnesses first
-    hists = [PROBE_STALE, PROBE_RESORT] + hists
+    hists = [PROBE_STALE, PROBE_RESORT, [list(o) for o in cc.PROBE_ALIAS]] + hists
+    hists[2][0][1] = alias
     tabs = cc.request_tables(ctx, [needs_of(h) for h in hists])
+    lawful = [history_lawful(h, t) for h, t in zip(hists, tabs)]
+    ctx.count("laws:true", sum(lawful))
+    ctx.count("laws:false (oracle only)", len(lawful) - sum(lawful))
     cases = [sx([variant, t.parsed, h]) for h, t in zip(hists, tabs)]
-    impl, model = ctx.correspond("client_history", cases)
-    lib.kernel_crosscheck(ctx, [("client_history", c, m) for c, m in zip(cases, model) if '"oom"' not in m], maxn=60)
+    # model and implementation side by side where the hypothesis of the theorems holds; what C14 does
+    # not state (the exact order inside a Versions answer) is taken out of the comparison
+    idx = [i for i, ok in enumerate(lawful) if ok]
+    it = iter(idx)
+
+    def same(x, y):
+        i = next(it)
+        if x == y:
+            return True
+        try:
+            return canonical(hists[i], parse_sx(x), tabs[i]) == canonical(hists[i], parse_sx(y), tabs[i])
+        except Exception:
+            return False
+    impl_l, model_l = ctx.correspond("client_history", [cases[i] for i in idx], compare=same)
+    impl = [None] * len(cases)
+    for i, x in zip(idx, impl_l):
+        impl[i] = x
+    rest = [i for i, ok in enumerate(lawful) if not ok]
+    for i, x in zip(rest, ctx.impl("client_history", [cases[i] for i in rest]) if rest else []):
+        impl[i] = x
+    lib.kernel_crosscheck(ctx, [("client_history", cases[i], m) for i, m in zip(idx, model_l) if '"oom"' not in m], maxn=60)
 
     for h, t, line, case in zip(hists, tabs, impl, cases):
-        nadd = sum(1 for o in h if o[0] == 0)
+        nadd = sum(len(adds_of(o)) for o in h)
         ctx.count("ops", len(h))
         ctx.count("adds", nadd)
-        ctx.count("lookups", len(h) - nadd)
-        ctx.count("systems:%d" % len(set(o[1] for o in h)))
+        ctx.count("lookups", sum(1 for o in h if o[0] in (1, 2, 3, 4)))
+        ctx.count("systems:%d" % len(set(o[2] if o[0] == 5 else o[1] for o in h)))
+        if any(o[0] == 5 for o in h):
+            ctx.count("hist:with_reused_buffer")
+        if any(o[0] == 0 and len(o[6]) > 12 for o in h):
+            ctx.count("hist:with_more_than_12_requirements")
+        per_pkg = {}
+        for o in h:
+            for a in adds_of(o):
+                per_pkg.setdefault(a[:2], set()).add(a[3])
+        if any(len(v) > 12 for v in per_pkg.values()):
+            ctx.count("hist:with_more_than_12_versions_in_a_package")
         obs = parse_sx(line)
         if obs == [b"panic"]:
             ctx.violation("LocalClient panics", case[:2000], observed=line)
@@ -295,14 +496,14 @@ def run(ctx):
         changed = set()
         nontriv = False
         for o in h:
-            if o[0] == 0:
-                k = tuple(o[1:5])
-                if k in seen and seen[k] != repr(o[5:]):
+            for a in adds_of(o):
+                k = a[:4]
+                if k in seen and seen[k] != repr(a[4:]):
                     changed.add(k)
-                seen[k] = repr(o[5:])
-                if cc.dump_get(cc.attrs_dump(o[5]), cc.V_DELETED) is not None:
+                seen[k] = repr(a[4:])
+                if is_deleted(a[4]):
                     ctx.count("adds:deleted")
-            elif o[0] in (1, 3) and tuple(o[1:5]) in changed:
+            if o[0] in (1, 3) and tuple(o[1:5]) in changed:
                 nontriv = True
         if changed:
             ctx.count("hist:with_changed_repeat")
@@ -310,14 +511,19 @@ def run(ctx):
             ctx.nontriv(h)
         bad = reference(h, t, obs)
         if bad is not None:
-            pinned = reference(h, t, obs, stale_attrs=True) if addv == 0 else bad
+            # is the behaviour exactly that of a known finding?  (the pinned references)
+            fid, pinned = None, bad
+            if addv == 0 or alias & 1:
+                pinned = reference(h, t, obs, stale_attrs=(addv == 0), alias=bool(alias & 1))
+                fid = "F-C14-1" if (addv == 0 and reference(h, t, obs, stale_attrs=True) is None) else "F-C14-2"
             if pinned is None:
-                # the behaviour is exactly that of the open known finding: first attributes kept
                 n, what, want = bad
-                ctx.violations.append({"what": what, "input": {"ops": sx(h), "failing_op_index": n}, "observed": line[:3000],
-                                       "required": sx(want), "kind": "oracle", "known": "F-C14-1"})
+                k = sum(1 for o in h[:n] if o[0] != 0)
+                ctx.violations.append({"what": what, "input": {"ops": sx(h), "failing_op_index": n, "failing_op": sx(h[n])},
+                                       "observed": sx(obs[k]) if k < len(obs) else line[:3000],
+                                       "required": sx(want), "kind": "oracle", "known": fid})
             else:
-                # report the first observation that the known finding does not explain
+                # report the first observation that no known finding explains
                 n, what, want = pinned
                 k = sum(1 for o in h[:n] if o[0] != 0)
                 payload = {"ops": sx(h), "failing_op_index": n, "failing_op": sx(h[n]),
@@ -330,12 +536,14 @@ def run(ctx):
 def oracle_only(ctx):
     """used when the proofs or the model do not build: reference model on the Go outputs only"""
     rng = ctx.rng
-    hists = [gen_history(rng, rng.randrange(1, 61), rng.choice([4, 6, 8])) for _ in range(1000)]
+    cc.detect_variant(ctx)
+    INPLACE[0] = bool(ctx.extra["alias"] & 2)
+    hists = [gen_history(rng, rng.randrange(1, 61), rng.choice([4, 6, 8]), ctx.extra["alias"]) for _ in range(1000)]
     tabs = cc.request_tables(ctx, [needs_of(h) for h in hists])
     outs = ctx.impl("client_history", [sx([0, [], h]) for h in hists])
     for h, t, line in zip(hists, tabs, outs):
         obs = parse_sx(line)
         bad = reference(h, t, obs)
-        if bad is not None and reference(h, t, obs, stale_attrs=True) is not None:
+        if bad is not None and reference(h, t, obs, stale_attrs=True, alias=True) is not None:
             n, what, want = bad
             ctx.violation(what, {"ops": sx(h), "failing_op_index": n}, observed=line[:3000], required=sx(want))
